@@ -1891,12 +1891,16 @@ def join_model(I, sep, sq):
 
 
 def encode_model(I, s, args, kwargs):
-    enc = concretise(args[0]) if args else 'utf-8'
+    """str.encode(codec): exact on constants, otherwise an uninterpreted function of (text, codec
+    name) -- the codec name may be symbolic"""
+    et = strterm(args[0]) if args else z3.StringVal('utf-8')
+    ec = z3.simplify(et)
     c = z3.simplify(s)
-    if z3.is_string_value(c):
-        return z3.StringVal(decode_z3_string(c.as_string()).encode(enc).decode('latin-1'))
-    f = z3.Function('str_encode_' + enc.replace('-', '_'), z3.StringSort(), z3.StringSort())
-    return f(s)
+    if z3.is_string_value(c) and z3.is_string_value(ec):
+        return z3.StringVal(decode_z3_string(c.as_string()).encode(ec.as_string()).decode('latin-1'))
+    used('str.encode (uninterpreted function of text and codec name)')
+    f = z3.Function('str_encode', z3.StringSort(), z3.StringSort(), z3.StringSort())
+    return f(s, et)
 
 
 def split_model(I, s, name, args, kwargs):
